@@ -47,8 +47,14 @@ class K:
     a = 1.5
     def __init__(self, q):
         self.b = q
+    @classmethod
+    def make(cls, q):
+        return cls(q)
+class S(K):
+    pass
 '''
 KLINE = PRELUDE.split('\n').index('class K:') + 1
+CLINES = {'K': KLINE, 'S': PRELUDE.split('\n').index('class S(K):') + 1}
 
 
 def render_stmt(s):
@@ -66,6 +72,10 @@ def render_stmt(s):
         return ['%s = f%d(%s)' % (v, s['f'], w)]
     if op == 'New':
         return ['%s = K(%s)' % (v, w)]
+    if op == 'NewS':
+        return ['%s = S(%s)' % (v, w)]
+    if op == 'Make':
+        return ['%s = %s.make(%s)' % (v, 'K' if s['f'] == 1 else 'S', w)]
     if op == 'Attr':
         return ['%s = %s.%s' % (v, w, s['n'])]
     if op == 'If':
@@ -109,7 +119,7 @@ def core_case(case):
             out['infer'][v] = {'exc': r[2]}
         else:
             out['infer'][v] = {'names': sorted(set(d.name for d in r[1])),
-                               'klines': sorted(set(d.line for d in r[1] if d.name == 'K'))}
+                               'klines': {c: sorted(set(d.line for d in r[1] if d.name == c)) for c in CLINES}}
     return out
 
 
@@ -135,6 +145,8 @@ SNIPPETS = [
     "class C{n}:\n    attr = {a}\n    def __init__(self, v):\n        self.v = v\n    def get(self):\n        return self.v\nc{n} = C{n}({b})\nc{n} #P\nc{n}.attr #P\nc{n}.v #P\nc{n}.get() #P\nC{n} #P",
     "class B{n}:\n    def who(self):\n        return {a}\n    def me(self):\n        return self\nclass D{n}(B{n}):\n    def who(self):\n        return {b}\nd{n} = D{n}()\nd{n}.who() #P\nd{n}.me() #P",
     "class B{n}:\n    base_attr = {a}\nclass D{n}(B{n}):\n    pass\nD{n}().base_attr #P\nD{n}.base_attr #P",
+    # inherited classmethods / staticmethods / properties through subclasses (cls is the class looked up on)
+    "class CB{n}:\n    @classmethod\n    def make(cls):\n        return cls()\n    @classmethod\n    def kind(cls):\n        return cls\n    def clone(self):\n        return self\n    @staticmethod\n    def st():\n        return {a}\n    @property\n    def me(self):\n        return self\nclass CS{n}(CB{n}):\n    pass\nclass CT{n}(CS{n}):\n    pass\nCS{n}.make() #P\nCT{n}.make() #P\nCB{n}.make() #P\nCS{n}().make() #P\nCT{n}.kind() #P\nCT{n}().clone() #P\nCT{n}.st() #P\nCS{n}().me #P",
     # closures and lambdas
     "def outer{n}(x):\n    def inner():\n        return x\n    return inner\nouter{n}({a})() #P",
     "lam{n} = lambda x, y={b}: y\nlam{n}({a}) #P\nlam{n}({a}, {a}) #P",
@@ -301,8 +313,8 @@ def run(ctx):
             model = sorted(set(case['abs'][v]))
             if inf['names'] != model:
                 ctx.drift({'var': v, 'model': model, 'code': inf['names'], 'src': r['src'][len(PRELUDE):]})
-            ev = {'runtime': rk, 'rline': KLINE if rk == 'K' else 0, 'inferred': [[n, (KLINE if n == 'K' and KLINE in inf['klines'] else 0)]
-                                                                                 for n in inf['names']],
+            ev = {'runtime': rk, 'rline': CLINES.get(rk, 0),
+                  'inferred': [[n, (CLINES[n] if n in CLINES and CLINES[n] in inf['klines'][n] else 0)] for n in inf['names']],
                   'single': bool(case['single'][v])}
             traces.append([ev])
             owners.append({'src': r['src'][len(PRELUDE):], 'var': v, 'runtime': rk, 'inferred': inf['names'],
